@@ -64,6 +64,9 @@ def cases(tier, seed):
         cs.append({'d': 'A', 'msg': {'body': 'ascii' if fmt in ('t',) else ('text' if fmt == 'u' else 'binary'), 'comp': 'ZLIB', 'filename': fn, 'format': fmt,
                                      'mtime': 86400 * 365 * 20 + 7, 'sensitive': sens},
                    'cipher': 'AES128', 'rcpts': [['key', 'cv25519_0', True]], 'sk': 'gen', 'signed': False, 'armor': False})
+    # A4b: a body that compresses better than 1000:1, under every compression algorithm
+    for comp in encwork.COMPRESSIONS:
+        cs.append({'d': 'A', 'msg': {'body': 'zeros1m', 'comp': comp}, 'cipher': 'AES128', 'rcpts': [['key', 'cv25519_0', True]], 'sk': 'gen', 'signed': False, 'armor': False})
     # A5: supplied session keys incl. wrong sizes; refused ciphers
     for c, n in (('AES256', 32), ('AES256', 16), ('AES256', 24), ('AES128', 16), ('AES128', 32), ('TripleDES', 24), ('CAST5', 16)):
         cs.append({'d': 'A', 'msg': {'body': 'ascii', 'comp': 'Uncompressed'}, 'cipher': c, 'rcpts': [['key', 'cv25519_0', True]], 'sk': 'fixed%d' % n, 'signed': False, 'armor': False})
